@@ -249,6 +249,8 @@ def random_env(roots, rng, scale=3):
             continue
         if sort == "Bool":
             env[n] = rng.random() < 0.5
+        elif n.startswith("co") and (len(n) == 2 or n[2] == "@"):
+            env[n] = Fraction(rng.choice((-1, 1)))  # CellOrientation
         else:
             env[n] = Fraction(rng.randint(-scale * 4, scale * 4), rng.randint(1, 4))
     return env
@@ -536,3 +538,75 @@ def flatten_diffs(pairs):
         for x, y in _flatten_pairs(a, b):
             out.append(x.diff_num(y))
     return out
+
+
+def prove_implied(cond: tm.T, assumptions=(), timeout=30, label="", seed=0):
+    """Decide `side facts /\\ assumptions => cond` (cond a Bool term).  A counter-model is
+    replayed numerically before it is reported."""
+    t0 = time.time()
+    if cond.op == "true":
+        v, _ = run_z3(tm.to_smt2([tm._mk("not", (tm._mk("eq", (tm.const(0), tm.const(0)), "Bool"),), "Bool")]), timeout)
+        return Result("proved" if v == "unsat" else "inconclusive", 0, query_s=time.time() - t0)
+    A = side_assumptions(list(assumptions))
+    v, out = run_z3(tm.to_smt2(A + [tm.not_(cond)], comments=[label, "implication"]), timeout)
+    if v == "unsat":
+        return Result("proved", 2, query_s=time.time() - t0, size=tm.size([cond]))
+    rng = random.Random(seed)
+    tries = []
+    if v == "sat":
+        _, outm = run_z3(tm.to_smt2(A + [tm.not_(cond)]), timeout, want_model=True)
+        tries.append(("solver-model", {k: x for k, x in parse_model(outm).items() if x is not None}))
+    roots = [cond] + list(assumptions) + list(ST.nonzero) + list(ST.facts) + list(ST.domain)
+    for i in range(60):
+        tries.append(("random-point", random_env(roots, rng, scale=1 + i % 4)))
+    for kind, env0 in tries:
+        base = {k: x for k, x in env0.items() if not k.startswith(("rad!", "q!"))}
+        for n, sort in tm.variables(roots):
+            if n not in base and not n.startswith(("rad!", "q!", "const!")):
+                base[n] = Fraction(rng.randint(-5, 5), rng.randint(1, 3)) if sort == "Real" else False
+        env = complete_env(base, roots)
+        if env is None:
+            continue
+        try:
+            if assumptions and not all(tm.evaluate(list(assumptions), env, UF_FLOAT)):
+                continue
+            if ST.nonzero and any(x == 0 for x in tm.evaluate(list(ST.nonzero), env, UF_FLOAT)):
+                continue
+            if ST.domain and not all(tm.evaluate(list(ST.domain), env, UF_FLOAT)):
+                continue
+            # facts that are not definitional for derived symbols (e.g. co^2 = 1) must hold too
+            if ST.facts and not all(_approx_true(f, env) for f in ST.facts):
+                continue
+            ok = tm.evaluate([cond], env, UF_FLOAT)[0]
+        except (ValueError, ZeroDivisionError, OverflowError, KeyError):
+            continue
+        if not ok and _robustly_false(cond, env):
+            wit = {k: (str(x) if isinstance(x, Fraction) else x) for k, x in env.items()}
+            return Result("violated", kind, witness={"env": wit}, query_s=time.time() - t0)
+    return Result("inconclusive", None, detail=f"z3:{v}", query_s=time.time() - t0)
+
+
+def _approx_true(f, env):
+    if f.op == "and":
+        return all(_approx_true(a, env) for a in f.args)
+    if f.op == "eq":
+        a, b = tm.evaluate(list(f.args), env, UF_FLOAT)
+        if isinstance(a, (int, Fraction)) and isinstance(b, (int, Fraction)):
+            return a == b
+        return abs(float(a) - float(b)) <= 1e-9 * (1 + abs(float(a)) + abs(float(b)))
+    if f.op == "le":
+        a, b = tm.evaluate(list(f.args), env, UF_FLOAT)
+        return float(a) <= float(b) + 1e-12
+    return bool(tm.evaluate([f], env, UF_FLOAT)[0])
+
+
+def _robustly_false(cond, env):
+    """A comparison evaluated in floating point counts as false only with a clear margin."""
+    if cond.op in ("lt", "le"):
+        a, b = tm.evaluate(list(cond.args), env, UF_FLOAT)
+        if isinstance(a, (int, Fraction)) and isinstance(b, (int, Fraction)):
+            return True
+        return float(a) - float(b) > 1e-7 * (1 + abs(float(a)) + abs(float(b)))
+    if cond.op == "and":
+        return any((not tm.evaluate([c], env, UF_FLOAT)[0]) and _robustly_false(c, env) for c in cond.args)
+    return True
